@@ -20,8 +20,10 @@ ROOT = os.path.dirname(os.path.dirname(os.path.abspath(__file__)))
 sys.path.insert(0, ROOT)
 if os.environ.get("VERIF_REPO") and os.path.abspath(os.environ["VERIF_REPO"]) != "/repo":
     sys.path.insert(0, os.environ["VERIF_REPO"])        # self-test on a scratch copy: import flowpaths from there, too
-EVID = os.path.join(ROOT, "evidence")
-REPLAY = os.path.join(ROOT, "replay")
+_SCRATCH = bool(os.environ.get("VERIF_REPO")) and os.path.abspath(os.environ["VERIF_REPO"]) != "/repo"
+# a self-test against a scratch copy must not overwrite the evidence / replay files of /repo itself
+EVID = os.path.join(ROOT, "evidence_scratch" if _SCRATCH else "evidence")
+REPLAY = os.path.join(ROOT, "replay_scratch" if _SCRATCH else "replay")
 LOCK = os.path.join(ROOT, "contracts", "OBLIGATIONS.lock")
 KNOWN = os.path.join(ROOT, "known_findings.json")
 ALL_PROPS = ["C%02d" % i for i in range(1, 21)]
